@@ -1,4 +1,5 @@
 """C06 -- end-to-end payload transparency between two endpoints."""
+import dataclasses
 import json
 import random
 
@@ -56,9 +57,20 @@ def cases(tier, seed):
         picks = [(reqs[i], resps[i]) for i in range(5)]      # all / only required / falsy / boundary / alternative values
         for _ in range(max(0, k - 5)):
             picks.append((rng.choice(reqs), rng.choice(resps)))
-        for (rq, rs) in picks[:k]:
+        for pi, (rq, rs) in enumerate(picks[:k]):
             if isinstance(rq[1], dict) and isinstance(rs[1], dict):
                 out.append((version, action, rq[1], rs[1], rng.choice([False, True, "mixed"])))
+                if pi == 0:
+                    # the instance with every optional: also as plain dicts that hold data-type objects deeper inside
+                    # (only where that differs from plain dicts, i.e. the classes nest at least two levels)
+                    try:
+                        probe_q = N.make_request(version, action, GD.snake(rq[1]), "inner")
+                        probe_s = N.make_result(version, action, GD.snake(rs[1]), "inner")
+                    except TypeError:
+                        continue
+                    if N.contains_dataclass(dataclasses.asdict(probe_q) and [getattr(probe_q, f.name) for f in dataclasses.fields(probe_q)]) or \
+                            N.contains_dataclass([getattr(probe_s, f.name) for f in dataclasses.fields(probe_s)]):
+                        out.append((version, action, rq[1], rs[1], "inner"))
     return out
 
 
@@ -83,7 +95,7 @@ def body_factory(tier, seed):
                 return r
             res = N.run_loopback(version, action, obj, behave)
             rep.count(json.dumps([version, action, req, resp, as_dc], default=repr, sort_keys=True))
-            rep.add("nested-as-" + ("mixed" if as_dc == "mixed" else "dataclasses" if as_dc else "dicts"))
+            rep.add("nested-as-" + (as_dc if isinstance(as_dc, str) else "dataclasses" if as_dc else "dicts"))
             replay = {"kind": "loopback", "version": version, "action": action, "request": req, "response": resp,
                       "nested_as_dataclasses": as_dc, "observation": {k: (v if k != "outcome" else v[:3]) for k, v in res.items() if k != "frames"}}
             tag = "%s:%s" % (version, action)
